@@ -258,7 +258,21 @@ class Be(Family):
                         msgs = pre + [(W.msg(l1[0], l1[1], need_reply=l1[2]), []), (W.msg(l2[0], l2[1], need_reply=l2[2]), [])]
                         outs = [0] * len(pre) + [l1[3], l2[3]]
                         out.append((encode_case(W.VF_PROTOCOL_FEATURES, W.PF_ALL, outs, msgs), "exhaustive2"))
+        # clean histories around the configuration messages: every header is consistent with the bytes that follow,
+        # but the 12-byte descriptor declares fewer / more bytes than come after it (C05: served only when equal)
+        pre = prefixes[2]
+        for code in (24, 25):
+            for off, declared in ((0, 4), (0x10, 16), (0xffc, 4), (0, 1), (0xff0, 16)):
+                for extra in (0, 1, 12, -1, 64, 4096 - 12 - declared):
+                    n = declared + extra
+                    if n < 0 or 12 + n > 4096:
+                        continue
+                    for o in (0, 1):
+                        body = W.config(off, declared, rng.choice([0, 1]), bytes((i * 7 + 1) % 256 for i in range(n)))
+                        msgs = pre + [(W.msg(code, body, need_reply=rng.chance(1, 2)), []), (W.msg(1), [])]
+                        out.append((encode_case(W.VF_PROTOCOL_FEATURES, W.PF_ALL, [0] * len(pre) + [o, 0], msgs), "config-lengths"))
         return out
+
 
     def nontrivial(self, args, obs):
         # at least one handler invocation happened
